@@ -163,4 +163,14 @@ def modelledFields : List (String × String) :=
 def stateModelled (fields : List (String × String)) (packageVars : List String) : Bool :=
   fields == modelledFields && packageVars.isEmpty
 
+/-- what SnapshotInTx does with its path strings, in source order (regenerated by extract/dbpaths.go).  A string
+    variable is named with the number of assignments it has received so far (parameter = 0). -/
+inductive PathEv where
+  | replace (v : String) (ver : Nat) (old by_ : String)  -- v = strings.ReplaceAll(v, old, <by_>); v now has version `ver`
+  | assign (v : String) (ver : Nat) (how : String)       -- any other assignment to / from a path variable
+  | copy (v : String) (ver : Nat)                        -- tx.CopyFile(v, ..)
+  | mark (v : String) (ver : Nat)                        -- MarkAsSnapshot(v)
+  | ret (v : String) (ver : Nat)                         -- return v, ..
+  deriving DecidableEq, Repr
+
 end StorageModel.C17
